@@ -163,7 +163,8 @@ REG.add_class(ClassDecl('<ext>', 'CLIArgs', {'include_species': T.Opt(T.List(T.S
 REG.add_class(ClassDecl('<ext>', 'ArgParser', {}, external=True))
 REG.add(Contract('<ext>', 'ArgParser.error', params=[('self', T.Obj('ArgParser')), ('message', T.Any)], ensures=lambda v, old, res: [],
     may_raise=lambda v: [('SystemExit', z3.BoolVal(True))], external=True, note='argparse.ArgumentParser.error(message): prints the usage and exits (SystemExit)', props=['C13']))
-for _f, _q, _ps in ((F_QA, 'action_list_items', ['cp']), (F_QA, 'action_list_item_labels', ['cp']), (F_QA, 'action_item_value', ['cp', 'key']), (F_ACT, 'action_tabulate', ['cp', 'outfilename'])):
+from . import actions as ACT      # action_tabulate: verified contract (C17)
+for _f, _q, _ps in ((F_QA, 'action_list_items', ['cp']), (F_QA, 'action_list_item_labels', ['cp']), (F_QA, 'action_item_value', ['cp', 'key'])):
     REG.add(Contract(_f, _q, params=[(n_, T.Any) for n_ in _ps], ensures=lambda v, old, res: [], trusted=True, may_raise=lambda v: [('ConfigurationException', z3.Bool('action_rejects_model'))],
         note='an action of the front end applied to the parser it is given (what it writes is C01-C05, C14, C19); may end in a configuration error', props=['C13']))
 
@@ -189,5 +190,6 @@ def _do_exit(v, old):
 REG.add(Contract(F_CLI, '_do_tabulation', params=[('p', T.Obj('ArgParser')), ('args', T.Obj('CLIArgs'))],
     requires=lambda v: _args_items_ok(v.args),      # items of the form SECTION:KEY[=VALUE] (see _create_override_tuple)
     ensures=lambda v, old, res: [z3.BoolVal(False)], post_names=['always-leaves-through-sys.exit-or-an-error'],
-    on_raise=_do_exit, raises_when=lambda v, old, exc: [z3.BoolVal(exc.cls in ('SystemExit', 'ConfigurationException'))],
+    # what leaves: sys.exit, a configuration error (main() turns it into a usage error), or whatever escapes the tabulate action (an evaluation failing part-way: C17)
+    on_raise=_do_exit, raises_when=lambda v, old, exc: [z3.BoolVal(exc.cls in ('SystemExit', 'ConfigurationException') or exc.origin == 'action_tabulate')],
     carries=['on_raise'], props=['C13']))
